@@ -224,20 +224,9 @@ fn model_step(t: usize, env: &mut Env) -> Result<(), ()> {
         },
         19 | 20 | 21 | 22 | 23 | 24 | 25 | 31 => Err(()),
         27 => env.get("a").and_then(num).map(|_| ()).ok_or(()),
-        28 | 32 => {
-            if bound(env, "a") {
-                Err(())
-            } else {
-                Ok(())
-            }
-        }
-        33 => {
-            if bound(env, "b") {
-                Err(())
-            } else {
-                Ok(())
-            }
-        }
+        // an assignment in a function body binds a name of that call: whether the top level
+        // (the caller) has the name does not matter, and the top level never sees the binding
+        28 | 32 | 33 => Ok(()),
         30 => {
             if bound(env, "b") {
                 return Err(());
